@@ -113,6 +113,9 @@ EDITS = {
         ("lr02", "crates/lib/mimium-lang/src/compiler/mirgen.rs", "                                ctx.insert_close_closures_recursively(cls.clone(), effective_rt);\n                                ctx.insert_clone_recursively(cls.clone(), effective_rt);", "                                ctx.insert_clone_recursively(cls.clone(), effective_rt);", "verus", "mirgen_rc"),
         ("ea10", "crates/lib/mimium-lang/src/compiler/mirgen.rs", "                    self.insert_close_closures_recursively(res.clone(), t);", "                    self.insert_clone_recursively(res.clone(), t);", "verus", "mirgen_rc"),
         ("ea11", "crates/lib/mimium-lang/src/compiler/mirgen.rs", "                if t.to_type().contains_function() || t.to_type().contains_boxed() {\n                    self.insert_clone_recursively(res.clone(), t);", "                if t.to_type().contains_function() || t.to_type().contains_boxed() {\n                    self.insert_clone_recursively(v.clone(), t);", "verus", "mirgen_rc"),
+        ("bp01", "crates/lib/mimium-lang/src/compiler/mirgen.rs", "                        // (same rationale as add_bind_pattern tuple case).\n                        self.insert_clone_recursively(elem_val.clone(), *elem_ty);", "                        // (same rationale as add_bind_pattern tuple case).", "verus", "mirgen_rc"),
+        ("bp02", "crates/lib/mimium-lang/src/compiler/mirgen.rs", "                        self.bind_pattern(pat, elem_val, bind_ty);", "                        self.bind_pattern(pat, elem_val, *elem_ty);", "verus", "mirgen_rc"),
+        ("bp03", "crates/lib/mimium-lang/src/compiler/mirgen.rs", "                if let Some(inner_pat) = inner {\n                    self.bind_pattern(inner_pat, value, ty);", "                if let Some(inner_pat) = inner {\n                    self.insert_clone_recursively(value.clone(), ty);\n                    self.bind_pattern(inner_pat, value, ty);", "verus", "mirgen_rc"),
         ("lx01", "crates/lib/mimium-lang/src/compiler/mirgen.rs", "                        let value = self.push_inst(Instruction::Load(ptr, ty));\n                        self.insert_release_recursively(value, ty);", "                        let value = self.push_inst(Instruction::Load(ptr, ty));\n                        self.insert_release_recursively(value.clone(), ty);\n                        self.insert_release_recursively(value, ty);", "verus", "mirgen_rc"),
         ("lx02", "crates/lib/mimium-lang/src/compiler/mirgen.rs", "                        let value = self.push_inst(Instruction::Load(ptr, ty));\n                        self.insert_release_recursively(value, ty);", "                        let value = self.push_inst(Instruction::Load(ptr, ty));\n                        self.insert_close_closures_recursively(value.clone(), ty);\n                        self.insert_release_recursively(value, ty);", "verus", "mirgen_rc"),
         ("px01", "crates/lib/mimium-lang/src/compiler/mirgen.rs", "                self.insert_clone_recursively(res.clone(), elem_ty);\n                (res, elem_ty, states)", "                (res, elem_ty, states)", "verus", "mirgen_rc"),
